@@ -60,6 +60,30 @@ fn post_hll(s: HllSketch) {
     let img = s.serialize();
     let _ = HllSketch::deserialize(&img).map(|d| d.estimate());
     let _ = m.serialize();
+    // merges with partners of other shapes: down-sampling union, dense partner, all result types
+    {
+        let mut dense = HllSketch::new(10, HllType::Hll4);
+        for i in 0..3000u64 {
+            dense.update(i);
+        }
+        for lg_max in [4u8, 7, 12] {
+            for first_dense in [false, true] {
+                let mut u = HllUnion::new(lg_max);
+                if first_dense {
+                    u.update(&dense);
+                }
+                u.update(&s);
+                if !first_dense {
+                    u.update(&dense);
+                }
+                u.update_value(77u64);
+                for t in [HllType::Hll4, HllType::Hll6, HllType::Hll8] {
+                    let r = u.to_sketch(t);
+                    let _ = (r.estimate(), r.lower_bound(NumStdDev::Three), r.serialize());
+                }
+            }
+        }
+    }
     // long drive: enough distinct items for several promotions / cur_min shifts
     if s.lg_config_k() <= 10 {
         let n = (48u64 << s.lg_config_k()).min(40_000);
@@ -106,6 +130,33 @@ fn post_cpc(s: CpcSketch, seed: u64) {
     let img = s.serialize();
     let _ = CpcSketch::deserialize_with_seed(&img, seed).map(|d| d.estimate());
     let _ = m.serialize();
+    // unions with partners of other lg_k and flavors (both orders)
+    {
+        let mut big = CpcSketch::with_seed(10, seed);
+        for i in 0..6000u64 {
+            big.update(i);
+        }
+        let mut small = CpcSketch::with_seed(4, seed);
+        for i in 0..40u64 {
+            small.update(i);
+        }
+        for lg in [4u8, 10, 12] {
+            for partner in [&big, &small] {
+                for first in [false, true] {
+                    let mut u = CpcUnion::with_seed(lg, seed);
+                    if first {
+                        u.update(partner);
+                    }
+                    u.update(&s);
+                    if !first {
+                        u.update(partner);
+                    }
+                    let r = u.to_sketch();
+                    let _ = (r.estimate(), r.validate(), r.serialize());
+                }
+            }
+        }
+    }
     // long drive through the remaining flavors and several window moves
     if s.lg_k() <= 8 {
         let n = (40u64 << s.lg_k()).min(12_000);
@@ -190,6 +241,18 @@ macro_rules! post_fi {
                 let mut f = FrequentItemsSketch::<$t>::new(8);
                 f.merge(&s);
                 let _ = f.total_weight();
+                // merges with partners of other map sizes, both directions
+                for sz in [8usize, 64] {
+                    let mut o = FrequentItemsSketch::<$t>::new(sz);
+                    for i in 0..100 {
+                        o.update_with_count($gen(i % 40), 1 + (i as u64 % 5));
+                    }
+                    let mut a = s.clone();
+                    a.merge(&o);
+                    let _ = (a.maximum_error(), a.serialize());
+                    o.merge(&s);
+                    let _ = (o.maximum_error(), o.frequent_items(ErrorType::NoFalseNegatives).len(), o.serialize());
+                }
                 // long drive: enough distinct items to grow the map to its maximum and purge twice
                 if s.lg_max_map_size() <= 10 {
                     let n = 3 * (1usize << s.lg_max_map_size());
@@ -221,6 +284,18 @@ fn post_td(mut t: TDigestMut) {
     let _ = TDigestMut::deserialize(&img, false).map(|d| d.total_weight());
     let img2 = t.serialize();
     let _ = TDigestMut::deserialize(&img2, false).map(|d| d.total_weight());
+    // merges with partners of other k, both directions
+    for k2 in [10u16, 500] {
+        let mut o = TDigestMut::new(k2);
+        for i in 0..700 {
+            o.update(i as f64 * 0.25 - 50.0);
+        }
+        let mut a = t.clone();
+        a.merge(&o);
+        let _ = (a.quantile(0.5), a.rank(0.0), a.serialize());
+        o.merge(&t);
+        let _ = (o.quantile(0.5), o.rank(0.0), o.serialize());
+    }
     // long drive: several buffer flushes in both merge directions, then a merge back
     if m.total_weight() < (1u64 << 60) {
         let n = (12 * m.k() as usize).min(6000);
@@ -513,7 +588,7 @@ pub fn build_cases(ctx: &Ctx, seeds: &[Seed]) -> Vec<Case> {
                 }
             }
             // M3 bit flips in the first 64 bytes
-            for off in 0..s.bytes.len().min(64) {
+            for off in 0..s.bytes.len().min(if ctx.tier == Tier::Thorough { 2048 } else { 64 }) {
                 for bit in 0..8 {
                     let mut b = s.bytes.clone();
                     b[off] ^= 1 << bit;
@@ -527,6 +602,39 @@ pub fn build_cases(ctx: &Ctx, seeds: &[Seed]) -> Vec<Case> {
                         let mut b = s.bytes.clone();
                         b[off] = v;
                         push(&mut cases, "byte substitution", e, b, si, format!("byte {off} = {v:#x}"), locus_of(s, off));
+                    }
+                }
+            }
+            if ctx.tier == Tier::Thorough {
+                // M4t every byte value at every offset of the first 48 bytes (the preamble)
+                for off in 0..s.bytes.len().min(48) {
+                    for v in 0..=255u8 {
+                        if s.bytes[off] != v {
+                            let mut b = s.bytes.clone();
+                            b[off] = v;
+                            push(&mut cases, "byte substitution", e, b, si, format!("byte {off} = {v:#x}"), locus_of(s, off));
+                        }
+                    }
+                }
+                // M5t named-field boundary value combined with every truncation (images <= 160 bytes)
+                if s.bytes.len() <= 160 {
+                    for fl in &s.fields {
+                        if fl.off + fl.width > s.bytes.len() {
+                            continue;
+                        }
+                        let bits = 8 * fl.width as u32;
+                        let max = if bits == 64 { u64::MAX } else { (1u64 << bits) - 1 };
+                        let cur = get_field(&s.bytes, fl);
+                        for v in [0u64, 1, max, max / 2 + 1, cur.wrapping_add(1) & max, cur.wrapping_sub(1) & max, cur.wrapping_mul(2) & max] {
+                            if v == cur {
+                                continue;
+                            }
+                            let mut b = s.bytes.clone();
+                            set_field(&mut b, fl, v);
+                            for l in (fl.off + fl.width)..s.bytes.len() {
+                                push(&mut cases, "field value + truncation", e, b[..l].to_vec(), si, format!("{} = {v:#x}, truncated to {l} bytes", fl.name), format!("field {}", fl.name));
+                            }
+                        }
                     }
                 }
             }
@@ -546,7 +654,7 @@ pub fn build_cases(ctx: &Ctx, seeds: &[Seed]) -> Vec<Case> {
                 let bits = 8 * fl.width as u32;
                 let max = if bits == 64 { u64::MAX } else { (1u64 << bits) - 1 };
                 let cur = get_field(b, fl);
-                let mut v: Vec<u64> = if ctx.tier == Tier::Thorough { vec![0, 1, 2, max, max / 2 + 1, cur.wrapping_add(1) & max, 1 << (bits - 2), 255 & max] } else { vec![0, max, cur.wrapping_add(1) & max] };
+                let mut v: Vec<u64> = if ctx.tier == Tier::Thorough { vec![0, 1, 2, 3, 7, 8, max, max - 1, max / 2, max / 2 + 1, cur.wrapping_add(1) & max, cur.wrapping_sub(1) & max, cur.wrapping_mul(2) & max, 1 << (bits - 2), 1 << (bits - 1), 255 & max, 16 & max, 64 & max] } else { vec![0, max, cur.wrapping_add(1) & max] };
                 v.sort_unstable();
                 v.dedup();
                 v.retain(|x| *x != cur);
@@ -576,7 +684,7 @@ pub fn build_cases(ctx: &Ctx, seeds: &[Seed]) -> Vec<Case> {
         // M9 record duplication: a trailing record overwritten by a copy of another one, exact or
         // with one bit flipped (duplicates / near-duplicates among repeated entries)
         for &e in &s.entries {
-            for (w, nrec) in [(4usize, 8usize), (8, 4)] {
+            for (w, nrec) in if ctx.tier == Tier::Thorough { [(4usize, 24usize), (8, 12)] } else { [(4usize, 8usize), (8, 4)] } {
                 let len = s.bytes.len();
                 if len < 8 + 2 * w {
                     continue;
